@@ -488,4 +488,10 @@ theorem start_key_of_cinv (P : Params) (tbl : Table) (h : CInv P tbl []) :
   · exact mem_keys_iff_contains.mp h1
   · cases h1
 
+/-- for the literal examples: an option known to be `some` is `some` of its `getD` -/
+theorem eq_some_getD {α : Type} (o : Option α) (d : α) (h : o.isSome = true) : o = some (o.getD d) := by
+  cases o with
+  | none => cases h
+  | some x => rfl
+
 end PS.G
